@@ -147,7 +147,7 @@ theorem textV_head (c : UInt8) (f d : Nat) (v : NVal) (hv : ValidV v) (X : Bytes
     (textV c f d v ++ X).head? ≠ some 61 := by
   cases v with
   | scal s =>
-    simp only [ValidV] at hv
+    simp only [Writer.Spec.ValidV] at hv
     obtain ⟨a, r, htx, _, _, _, _, _, _, h61, _⟩ := hv.head
     simp [textV, htx, h61]
   | obj k o v r => rw [textV_obj_app]; simp
@@ -220,14 +220,14 @@ mutual
 theorem pv (c : UInt8) (f n : Nat) (hc : isBlank c = true) : ∀ (v : NVal), ValidV v → PVstmt c f n v
   | .scal s, hv => by
     intro d st g X fuel hst hm hp hg hX
-    simp only [ValidV] at hv
+    simp only [Writer.Spec.ValidV] at hv
     refine ⟨[s.scal.tok X], ?_, ?_⟩
     · simp only [costV, textV]
       rw [run_cont (step_val_scal hst hg hv (fun _ => hX))]
     · simp [etoksV, Scal.tok_erase]
   | .obj k o v r, hv => by
     intro d st g X fuel hst hm hp hg hX
-    simp only [ValidV] at hv
+    simp only [Writer.Spec.ValidV] at hv
     obtain ⟨hk, hvv, hr⟩ := hv
     have hpv := pv c f n hc v hvv
     have hpf := pf c f n hc r hr
@@ -301,7 +301,7 @@ theorem pf (c : UInt8) (f n : Nat) (hc : isBlank c = true) : ∀ (fs : NFields),
     exact ⟨[], by simp [costF, textF], by simp [etoksF]⟩
   | .cons k o v r, hv => by
     intro d st X fuel hst hm hp hX
-    simp only [ValidF] at hv
+    simp only [Writer.Spec.ValidF] at hv
     obtain ⟨hk, hvv, hr⟩ := hv
     have hpv := pv c f n hc v hvv
     have hpf := pf c f n hc r hr
@@ -375,7 +375,7 @@ theorem parse_textRoot (c : UInt8) (f : Nat) (hc : isBlank c = true) (fs : NFiel
     refine ⟨[], ?_, by simp [etoksF]⟩
     simp [textRoot, textF, parse, hasBom, fuelFor, run, step, skipWs, skipWsAux, atEof, St.init, Res.withBom]
   | cons k o v r =>
-    simp only [ValidF] at hv
+    simp only [Writer.Spec.ValidF] at hv
     obtain ⟨hk, hvv, hr⟩ := hv
     have htext : textRoot c f (.cons k o v r) =
         [] ++ (k.scal.text ++ (sepText (opOf o) ++ (textV c f 0 v ++ (textF c f 0 r ++ [])))) := by
